@@ -109,13 +109,24 @@ def mk(k):
 NPOOL = 45
 
 
+def pick(k, lo, hi):
+    """concretise a symbolic pool index with O(log n) branch decisions (instead of one solver call per pool entry)"""
+    while lo < hi:
+        mid = (lo + hi) // 2
+        if k <= mid:
+            hi = mid
+        else:
+            lo = mid + 1
+    return lo
+
+
 def pair_laws(a: int, b: int) -> bool:
     """
     pre: 0 <= a < 45 and 0 <= b < 45
     post: _
     """
-    ca, x = mk(a)
-    cb, y = mk(b)
+    ca, x = mk(pick(a, 0, 44))
+    cb, y = mk(pick(b, 0, 44))
     exy, eyx = (x == y), (y == x)
     if bool(exy) != bool(eyx):
         return False                      # symmetry
@@ -133,8 +144,8 @@ def dict_key_laws(a: int, b: int) -> bool:
     pre: 0 <= a < 45 and 0 <= b < 45
     post: _
     """
-    ca, x = mk(a)
-    cb, y = mk(b)
+    ca, x = mk(pick(a, 0, 44))
+    cb, y = mk(pick(b, 0, 44))
     d = {x: 'v'}
     if x == y:
         return y in d and d[y] == 'v'
@@ -184,7 +195,7 @@ def range_shortcut_is_only_exception(a: int) -> bool:
     it = SymbolAttributes(BasicType.INTEGER)
     n = sym.Variable(name='n', type=it)
     r = sym.RangeIndex((sym.IntLiteral(1), n))
-    ca, x = mk(a)
+    ca, x = mk(pick(a, 0, 44))
     if ca in (19,):
         return True
     if isinstance(x, (sym.Scalar, sym.DeferredTypeSymbol)) and x.name.lower() == 'n':
@@ -193,11 +204,25 @@ def range_shortcut_is_only_exception(a: int) -> bool:
 
 
 FUNCS = ['pair_laws', 'dict_key_laws', 'int_literal_laws', 'float_int_laws', 'range_shortcut_is_only_exception']
+GROUP = 5      # pool indices per generated condition (one CrossHair process each)
 
 
 def generate(tier):
+    """module text for CrossHair: pair_laws / dict_key_laws are split by ranges of the first index so that the
+    conditions run in parallel; quick restricts the second index to b - a in 0..2 (case variants are adjacent)"""
+    import re
     from pathlib import Path
-    text = Path(__file__).read_text().split(chr(10) + 'def generate(tier):')[0]
-    if tier == 'quick':
-        text = text.replace('pre: 0 <= a < 45 and 0 <= b < 45', 'pre: 0 <= a < 45 and 0 <= b < 45 and 0 <= b - a <= 2')
-    return text, FUNCS
+    text = Path(__file__).read_text().split(chr(10) + 'FUNCS = [')[0]
+    funcs = ['int_literal_laws', 'float_int_laws', 'range_shortcut_is_only_exception']
+    for base in ('pair_laws', 'dict_key_laws'):
+        m = re.search(r'(?ms)^def %s\(.*?(?=^def )' % base, text)
+        src = m.group(0)
+        for lo in range(0, NPOOL, GROUP):
+            hi = min(lo + GROUP, NPOOL)
+            pre = f'pre: {lo} <= a < {hi} and 0 <= b < 45'
+            if tier == 'quick':
+                pre += ' and 0 <= b - a <= 2'
+            name = f'{base}_a{lo:02d}'
+            text += chr(10) + src.replace(f'def {base}(', f'def {name}(').replace('pre: 0 <= a < 45 and 0 <= b < 45', pre)
+            funcs.append(name)
+    return text, funcs
